@@ -605,28 +605,7 @@ func biWorkerMain() {
 		os.Exit(2)
 	}
 	var seq atomic.Uint64
-	go func() { // watchdog: CPU time (not wall time: the machine may be busy) spent in one call
-		cpu := func() time.Duration {
-			var ru syscall.Rusage
-			if syscall.Getrusage(syscall.RUSAGE_SELF, &ru) != nil {
-				return 0
-			}
-			return time.Duration(ru.Utime.Nano() + ru.Stime.Nano())
-		}
-		last, sinceCPU, sinceWall := uint64(0), cpu(), time.Now()
-		for {
-			time.Sleep(50 * time.Millisecond)
-			cur := seq.Load()
-			if cur != last {
-				last, sinceCPU, sinceWall = cur, cpu(), time.Now()
-				continue
-			}
-			if cpu()-sinceCPU > time.Duration(spec.TimeoutMs)*time.Millisecond || time.Since(sinceWall) > 40*time.Duration(spec.TimeoutMs)*time.Millisecond {
-				fmt.Fprintln(os.Stderr, "WATCHDOG: call exceeded the time limit")
-				os.Exit(4)
-			}
-		}
-	}()
+	go biWatchdog(&seq, spec.TimeoutMs)
 	cs := biCallables()
 	pools := newBiPools()
 	env := newBiEnv()
@@ -703,9 +682,37 @@ func biWorkerMain() {
 	os.Exit(0)
 }
 
+// biWatchdog ends the process when one call burns more CPU time than the limit (CPU
+// time, not wall time: the machine may be busy) or blocks for 40 times as long.
+func biWatchdog(seq *atomic.Uint64, timeoutMs int) {
+	cpu := func() time.Duration {
+		var ru syscall.Rusage
+		if syscall.Getrusage(syscall.RUSAGE_SELF, &ru) != nil {
+			return 0
+		}
+		return time.Duration(ru.Utime.Nano() + ru.Stime.Nano())
+	}
+	last, sinceCPU, sinceWall := uint64(0), cpu(), time.Now()
+	for {
+		time.Sleep(50 * time.Millisecond)
+		cur := seq.Load()
+		if cur != last {
+			last, sinceCPU, sinceWall = cur, cpu(), time.Now()
+			continue
+		}
+		if cpu()-sinceCPU > time.Duration(timeoutMs)*time.Millisecond || time.Since(sinceWall) > 40*time.Duration(timeoutMs)*time.Millisecond {
+			fmt.Fprintln(os.Stderr, "WATCHDOG: call exceeded the time limit")
+			os.Exit(4)
+		}
+	}
+}
+
 func init() {
-	if os.Getenv("CORR_BI_WORKER") == "1" {
+	switch os.Getenv("CORR_BI_WORKER") {
+	case "1":
 		biWorkerMain()
+	case "corr":
+		biCorrWorkerMain()
 	}
 }
 
